@@ -809,8 +809,9 @@ func c19Eval(c *Ctx, kind string, raw []byte) {
 
 	// --- correspondence with the model
 	if cs.NoModel {
-		c.Dist("direct-predicates-only(placeholder-shaped keys)")
-		return
+		// placeholder-shaped keys: since the model mirrors the repaired membership test (D32, /repo f8018cb) these
+		// cases are compared with it like all others; the flag only feeds the distribution
+		c.Dist("placeholder-shaped keys")
 	}
 	var docsW []any
 	for _, d := range flats {
